@@ -40,10 +40,74 @@ let parse_event s =
   | [] -> None
   | _ -> failwith ("bad event: " ^ s)
 
+(* ---- code-holder correspondence: "CH <start> <free> <bound> : op ; op ; ..." with ops
+   pub L | new S | puba L (address = result of the last new) | pubax L (a wrong address) | chg K OFF LEN |
+   upd K off... | fin ;  K = index of an earlier successful publish.  One output line: per op
+   "<result>: ev, ev, ..." separated by " | ".  The driver only resolves K to the address the MODEL
+   returned for that publish; everything else is chstep. *)
+let rec string_of_pos p =
+  (* decimal printing without OCaml int arithmetic on values: repeated division by 10 *)
+  let n = Npos p in
+  let rec go n acc =
+    match n with
+    | N0 -> acc
+    | _ -> let (q, r) = N.div_eucl n ten in go q (string_of_int (int_of_n r) ^ acc) in
+  go n ""
+let string_of_n = function N0 -> "0" | Npos p -> string_of_pos p
+
+let show_event = function
+  | Map (a, l) -> "A " ^ string_of_n a ^ " " ^ string_of_n l
+  | Unmap (a, l) -> "Z " ^ string_of_n a ^ " " ^ string_of_n l
+  | Protect (a, l, PW) -> "PW " ^ string_of_n a ^ " " ^ string_of_n l
+  | Protect (a, l, PX) -> "PX " ^ string_of_n a ^ " " ^ string_of_n l
+  | CodeWrite (a, l) -> "W " ^ string_of_n a ^ " " ^ string_of_n l
+  | _ -> "?"
+
+let run_ch line =
+  match String.index_opt line ':' with
+  | None -> print_endline "BAD"
+  | Some i ->
+    let hd = words (String.sub line 0 i) and ops = String.sub line (i + 1) (String.length line - i - 1) in
+    (match hd with
+     | "CH" :: triples when triples <> [] && List.length triples mod 3 = 0 ->
+       (* holders, current one first, as (start, free, bound) triples *)
+       let rec hs = function
+         | st :: fr :: bd :: r -> { h_start = n_of_string st; h_free = n_of_string fr; h_bound = n_of_string bd } :: hs r
+         | _ -> [] in
+       let s = ref { holders = hs triples; nreg = n_of_small (List.length triples / 3) } in
+       let blobs = ref [] and last_new = ref N0 and outs = ref [] in
+       let blob k = List.nth (List.rev !blobs) (int_of_string k) in
+       List.iter (fun o ->
+         let op = match words o with
+           | ["pub"; l] -> Some (Publish (n_of_string l))
+           | ["new"; z] -> Some (NewAddr (n_of_string z))
+           | ["puba"; l] -> Some (PublishByAddr (!last_new, n_of_string l))
+           | ["pubax"; l] -> Some (PublishByAddr (N.add !last_new (n_of_small 16), n_of_string l))
+           | ["chg"; k; off; l] -> Some (Change (N.add (blob k) (n_of_string off), n_of_string l))
+           | "upd" :: k :: offs -> Some (Update (blob k, List.map n_of_string offs))
+           | ["fin"] -> Some FinishAll
+           | [] -> None
+           | _ -> failwith ("bad ch op: " ^ o) in
+         match op with
+         | None -> ()
+         | Some op ->
+           let ((s', res), evs) = chstep !s op in
+           s := s';
+           (match op with
+            | Publish _ -> blobs := res :: !blobs
+            | PublishByAddr _ -> if res <> N0 then blobs := res :: !blobs
+            | NewAddr _ -> last_new := res
+            | _ -> ());
+           outs := (string_of_n res ^ ": " ^ String.concat ", " (List.map show_event evs)) :: !outs)
+         (String.split_on_char ';' ops);
+       print_endline (String.concat " | " (List.rev !outs))
+     | _ -> print_endline "BAD")
+
 let () =
   try
     while true do
       let line = input_line stdin in
+      if String.length line > 3 && String.sub line 0 3 = "CH " then run_ch line else
       let evs = List.rev (List.fold_left (fun acc s -> match parse_event s with Some e -> e :: acc | None -> acc)
                             [] (String.split_on_char ';' line)) in
       if accepts evs then Printf.printf "ACCEPT %d\n" (List.length evs)
